@@ -470,6 +470,10 @@ func fieldByTypeV(s reflect.Value, t reflect.Type, depth int) unsafe.Pointer {
 	return nil
 }
 
+// escapeLookalikes: text that LOOKS like the escapes of an output format (JSON, HTML, printf, templates, terminal) but
+// is plain data: any output stage that post-processes its own escapes by text replacement corrupts these.
+var escapeLookalikes = []string{"printf '\\u003c'", "sed 's/\\u0026/and/'", "echo \\u003e out", "a &lt;b&gt; &amp; c", "100%s done %d", "\\n literal", "say \\\"hi\\\"", "{{.Name}} ${HOME}", "\\x1b[0m", "tab\\there", "back\\\\slash", "%!s(MISSING)", "&#60;tag&#62;"}
+
 // genWideText: multi-byte text whose byte length is well above its character count (byte-indexed
 // truncation and column logic go wrong on such strings).
 var wideTexts = []string{"設定ファイルを圧縮して保存するコマンドです", "архивировать каталог с файлами журнала", "größenänderungsübersichtsprüfung äöü ßßß", "ファイル検索", "каталог"}
